@@ -15,6 +15,7 @@ int rec_ip4_calls, rec_ip4_rc; const char *rec_ip4_start, *rec_ip4_end;
 size_t strspn(const char *p, const char *set)
 {
     size_t k = nondet_size();
+    __CPROVER_assert(set[0] == '0' && set[9] == '9' && set[10] == 'a' && set[15] == 'f' && set[16] == 'A' && set[21] == 'F' && set[22] == 0, "strspn is modelled for the set of hex digits only");
     __CPROVER_assume(k <= 0x7fffffff);
     if (k > 0) __CPROVER_assume(V_IS_HEX(BYTE_AT(p)));
     if (k > 1) __CPROVER_assume(V_IS_HEX(BYTE_AT(p + 1)));
